@@ -104,7 +104,50 @@ def detect(sdir, tier, props):
     return res
 
 
+def collect(wt, prop, suffixes):
+    """import out/ and out2/ of a mutation worktree as seeded/<prop><suffix>; returns the new directories"""
+    new = []
+    for sub, suf in zip(("out", "out2"), suffixes):
+        src = os.path.join(wt, sub)
+        if not all(os.path.exists(os.path.join(src, f)) for f in ("patch.diff", "demo.py", "meta.json")):
+            continue
+        dst = os.path.join(V, "seeded", prop + suf)
+        os.makedirs(dst, exist_ok=True)
+        for f in ("patch.diff", "demo.py", "meta.json"):
+            shutil.copy(os.path.join(src, f), os.path.join(dst, f))
+        new.append(dst)
+    return new
+
+
+def process(sdir):
+    out = {}
+    vp = os.path.join(sdir, "verify.json")
+    if not os.path.exists(vp):
+        v = verify(sdir)
+        json.dump(v, open(vp, "w"), indent=1)
+    v = json.load(open(vp))
+    dp = os.path.join(sdir, "detect.json")
+    if v.get("confirmed") and not os.path.exists(dp):
+        d = detect(sdir, "quick", None)
+        json.dump(d, open(dp, "w"), indent=1, default=str)
+    d = json.load(open(dp)) if os.path.exists(dp) else {}
+    return os.path.basename(sdir), v.get("confirmed"), {p: (r["exit"], r["wall_s"], [l for l in r["lines"] if l.startswith("VIOL")][:1]) for p, r in d.items()}
+
+
 if __name__ == "__main__":
+    if sys.argv[1] == "all":
+        from concurrent.futures import ThreadPoolExecutor
+        jobs = int(sys.argv[2]) if len(sys.argv) > 2 else 3
+        root = os.path.join(V, "seeded")
+        dirs = [os.path.join(root, d) for d in sorted(os.listdir(root)) if os.path.exists(os.path.join(root, d, "meta.json"))
+                and not (os.path.exists(os.path.join(root, d, "detect.json")) and os.path.exists(os.path.join(root, d, "verify.json")))]
+        with ThreadPoolExecutor(jobs) as ex:
+            for r in ex.map(process, dirs):
+                print(time.strftime("%T"), r, flush=True)
+        sys.exit(0)
+    if sys.argv[1] == "collect":
+        print(collect(sys.argv[2], sys.argv[3], sys.argv[4].split(",")))
+        sys.exit(0)
     cmd, sdir = sys.argv[1], sys.argv[2]
     tier = "quick"
     props = None
